@@ -186,6 +186,11 @@ class Sandbox(object):
             return pathlib.Path(self.root)
         if form == 'dotted':
             return os.path.join(self.base, 'root-evil', '..', 'root')
+        if form == 'path_dotted':
+            # pathlib keeps '..' segments: the same directory as 'dotted', given as a Path
+            return pathlib.Path(self.base) / 'root-evil' / '..' / 'root'
+        if form == 'path_slash':
+            return pathlib.Path(self.root + '/./')
         raise HarnessError('bad directory form %r' % (form,))
 
 
@@ -384,7 +389,7 @@ MUT_CHARS = ['.', '/', '\\', ' ', '%00', '%0a', '%09', '~', ':', '*', '%3f', '%2
 MUT_OPS = ['ins', 'ins', 'del', 'rep', 'rep', 'swapcase', 'enc', 'dup', 'swap']
 
 FALLBACKS = [None, None, None, 'in_rel', 'in_sub', 'in_abs', 'out_abs']
-DIR_FORMS = ['str', 'str', 'str', 'slash', 'path', 'dotted']
+DIR_FORMS = ['str', 'str', 'str', 'slash', 'path', 'dotted', 'path_dotted', 'path_slash']
 METHODS = ['GET'] * 8 + ['HEAD', 'POST']
 
 
